@@ -45,6 +45,40 @@ def gen_case(seed, i, engine, n_rounds):
     return core.Case("backend", lines, {"engine": engine})
 
 
+def native_compact_case(seed, i, engine):
+    """the native Compact handler (pkg/server/brain) over a SLOW engine (the handler's first point read of the compaction record
+    takes 300 ms): once the handler has answered, the compaction at R is accepted - range reads, streams and counts below R
+    through either way in are refused from then on. (A handler that answers before the record is written would serve them.)"""
+    r = rng_for(seed, "c08n/%d" % i)
+    keys = r.sample(KEY_POOL, r.randint(3, 5))
+    sh = hist.Shadow()
+    lines = [hist.cfg_line(engine)]
+    lines += hist.gen_writes(r, sh, r.randint(6, 12), keys, p_ok=0.9)
+    R = r.randint(hist.INIT + 3, sh.dealt)
+    a, b = hx(PREFIX + b"/"), hx(PREFIX + b"0")
+    below = R - r.randint(1, 2)
+    lines += ["rev", "getdelay 300", "ncompact %d" % R, "nrange %s %s %d 0" % (a, b, below), "list %s %s %d 3" % (a, b, below),
+              "nstream %s %s %d" % (a, b, below), "floor", "nrange %s %s %d 0" % (a, b, R)]
+    return core.Case("native", lines, {"engine": engine, "native_compact": R})
+
+
+def native_compact_oracle(case):
+    R = case.meta["native_compact"]
+    seen = False
+    for i, (line, out) in enumerate(zip(case.lines, case.impl)):
+        t, o = line.split(), out.split()
+        if t[0] == "ncompact":
+            seen = o[1:2] != ["err"]
+            continue
+        if seen and t[0] in ("nrange", "list") and int(t[3]) < R and o[1:2] != ["err"]:
+            return ("line %d: the native Compact at %d had been answered, yet `%s` (revision %s, below it) was answered with data: %s"
+                    % (i + 1, R, line, t[3], out[:200]), "read-below-accepted-compaction-served")
+        if seen and t[0] == "nstream" and int(t[3]) < R and " end " in out and out.split(" end ")[1].split()[1] == "-":
+            return ("line %d: the native Compact at %d had been answered, yet the streamed range at revision %s ended without an error"
+                    % (i + 1, R, t[3]), "read-below-accepted-compaction-served")
+    return None
+
+
 def oracle(case):
     floor_rec = 0      # value of the stored record
     accepted = 0       # highest accepted compaction revision
@@ -203,10 +237,11 @@ def check(rep, tier, seed):
     cases += [gen_case(seed, i, ENGINES[i % len(ENGINES)], n_rounds) for i in range(n_hist)]
     cases += [race_case(seed, i, ENGINES[i % 3]) for i in range(12 if tier == "quick" else 1500)]
     cases += [overtaken_case(seed, i, ENGINES[i % 3]) for i in range(12 if tier == "quick" else 1500)]
+    cases += [native_compact_case(seed, i, ENGINES[i % 3]) for i in range(3 if tier == "quick" else 60)]
     core.run_cases(cases)
-    pick = lambda c: (etcd_oracle(c) if c.meta.get("etcd") else race_oracle(c) if c.meta.get("race")
+    pick = lambda c: (native_compact_oracle(c) if c.meta.get("native_compact") else etcd_oracle(c) if c.meta.get("etcd") else race_oracle(c) if c.meta.get("race")
                       else overtaken_oracle(c) if c.meta.get("overtaken") else oracle(c))
-    plain = lambda c: not (c.meta.get("etcd") or c.meta.get("race") or c.meta.get("overtaken"))
+    plain = lambda c: not (c.meta.get("etcd") or c.meta.get("race") or c.meta.get("overtaken") or c.meta.get("native_compact"))
     if core.judge(rep, "C08", cases, pick, shrink_fn=lambda x: plain(x) and oracle(x) is not None):
         return
     rep.assumptions += ["sequential compaction requests (a single compactor, as run by the leader's periodic job)"]
